@@ -40,6 +40,9 @@ mod slotmap;
 #[cfg(feature = "smallvec")]
 mod smallvec;
 
+#[cfg(gc_arena_verif)]
+pub use self::context::verif;
+
 #[doc(hidden)]
 pub use gc_arena_derive::__unelide_lifetimes;
 
